@@ -83,7 +83,7 @@ def gen_family(r, sym_ok=True, ill_bias=0.5):
     return {"params": params, "ret": ret, "vals": vals, "has_sym": has_sym, "perturb": sorted(kinds) or ["none"], "k": 2}
 
 
-def family_scenario(seed, fam, r, max_perms=4, styles_per_perm=3, with_dc=True, only_new=False):
+def family_scenario(seed, fam, r, max_perms=4, styles_per_perm=3, with_dc=True, only_new=False, same_name=False):
     anns, fns, ops, sibs = {}, {}, [], []
     aid = {}
 
@@ -109,9 +109,14 @@ def family_scenario(seed, fam, r, max_perms=4, styles_per_perm=3, with_dc=True, 
             params = [[fam["params"][j]["name"], ann_of(fam["params"][j])] for j in perm]
             if need_k:
                 params.insert(r.randrange(len(params) + 1), ["k", None])
-            fns[fid] = {"style": style, "tc": tc, "kind": "fn", "params": params, "ret": ann_of(fam["ret"])}
             args = [({"t": "int", "v": fam["k"]} if nm == "k" else fam["vals"][[p["name"] for p in fam["params"]].index(nm)])
                     for nm, _ in params]
+            fns[fid] = {"style": style, "tc": tc, "kind": "fn", "params": params, "ret": ann_of(fam["ret"])}
+            if same_name:
+                # redefinitions of 'the same' function: one name, parameters named by POSITION, so that the same
+                # parameter name carries different annotations in different siblings
+                fns[fid]["pyname"] = "fam"
+                fns[fid]["params"] = [[(f"p{j}" if nm != "k" else "k"), a] for j, (nm, a) in enumerate(params)]
             kw = r.choice((0, 2, 1))
             ops.append({"op": "call", "fn": fid, "args": args, "kw": kw, "body": [], "ret": fam["vals"][-1], "exit": "ret"})
             sibs.append({"fn": fid, "perm": perm, "style": style, "tc": tc, "kw": kw, "with_ret": True})
